@@ -36,12 +36,13 @@ def ser_per_case(u, c, tp, val, kw, out, violate):
     if r["kind"] != "ok" or not engine_ser.ser_equal(c["expect"], r["d"]):
         violate("opt-check_type", f"check_type=True gives {json.dumps({k: v for k, v in r.items() if k != 'raw'})[:300]}")
     # no_copy: same result; with no_copy=False nothing mutable is shared with the input
-    for nc in (False, True):
-        r = engine_ser.run_serialize(serialize, tp, val, no_copy=nc, **kw)
+    # (crossed with fall_back_on_any, which changes nothing for a value of the declared type)
+    for nc, fb in ((False, False), (True, False), (False, True), (True, True)):
+        r = engine_ser.run_serialize(serialize, tp, val, no_copy=nc, fall_back_on_any=fb, **kw)
         if r["kind"] != "ok" or not engine_ser.ser_equal(c["expect"], r["d"]):
-            violate("opt-no_copy", f"no_copy={nc} gives {json.dumps({k: v for k, v in r.items() if k != 'raw'})[:300]}")
+            violate("opt-no_copy", f"no_copy={nc} fall_back_on_any={fb} gives {json.dumps({k: v for k, v in r.items() if k != 'raw'})[:300]}")
         elif not nc and (in_ids & record.container_ids(r["raw"])):
-            violate("opt-shares", "no_copy=False but the result shares a mutable container with the input")
+            violate("opt-shares", f"no_copy=False (fall_back_on_any={fb}) but the result shares a mutable container with the input")
     # pass-through: equal once serialization_default completes what was left untouched
     dflt_kw = {k: v for k, v in kw.items() if k in ("aliaser", "additional_properties", "exclude_defaults", "exclude_none")}
     default = serialization_default(**dflt_kw)
